@@ -28,7 +28,7 @@ BOUNDED_RULE = 'grid over mu/s ratios, sigma ratios, M in {2,4,...,256}, P_avg, 
 
 H_, E_, KB_ = (z3.RealVal(Fraction(s)) for s in ('6.62607015e-34', '1.602176634e-19', '1.380649e-23'))
 CL = z3.RealVal(299792458)
-P10 = UF['pow10']
+P10 = lambda x: uf('pow10', x)
 
 SYMS = dict(P=z3.Real('P_avg'), ER=z3.Real('ER'), G=z3.Real('G'), NF=z3.Real('NF'), BWo=z3.Real('BW_opt'), r=z3.Real('r'), RL=z3.Real('R_L'),
             T=z3.Real('T'), BWe=z3.Real('BW_el'), NFe=z3.Real('NF_el'), wl=z3.Real('wavelength'), f0=z3.Real('f0'))
@@ -187,7 +187,7 @@ def model_variances(K):
 
 
 def q_term(x):
-    return UF['erfc'](x / UF['sqrt'](z3.RealVal(2))) / 2
+    return uf('erfc', x / uf('sqrt', z3.RealVal(2))) / 2
 
 
 def _mk_tb_clause(amplify, mod, M, dec):
@@ -213,7 +213,7 @@ def _mk_tb_clause(amplify, mod, M, dec):
             rd = mins[0]
             _, _, mu, var = spec_model(Mv, amplify, S['f0'])
             x = mu[0] + z3.ToReal(j) * (mu[1] - mu[0]) / 4999
-            s0, s1 = UF['sqrt'](var[0]), UF['sqrt'](var[1])
+            s0, s1 = uf('sqrt', var[0]), uf('sqrt', var[1])
             if mod == 'ook':
                 body = (q_term((mu[1] - x) / s1) + q_term((x - mu[0]) / s0)) / 2
                 scale = z3.RealVal(1)
@@ -287,8 +287,8 @@ def optimum_threshold(K):
                 K.prove(f'noraise[{sig}]', p.pc, False, replay=rep_for(mod, M))
                 continue
             r_ = toreal(p.value)
-            s0, s1 = UF['sqrt'](S0), UF['sqrt'](S1)
-            L = UF['ln'](s1 / s0 * (Mv - 1))
+            s0, s1 = uf('sqrt', S0), uf('sqrt', S1)
+            L = uf('ln', s1 / s0 * (Mv - 1))
             defined = [c for (_, c, _, _) in p.ex.side]      # the closed form is real: radicand >= 0, logarithm argument > 0, divisors != 0
             K.prove(f'solves[{sig}]', list(p.pc) + defined, S1 * (r_ - mu0) * (r_ - mu0) - S0 * (r_ - mu1) * (r_ - mu1) == 2 * S0 * S1 * L, replay=rep_for(mod, M), algebra=True,
                     words='the returned threshold solves the likelihood equation S1 (r-mu0)^2 - S0 (r-mu1)^2 = 2 S0 S1 ln((M-1) s1/s0), i.e. (M-1) N(r;mu0,S0) = N(r;mu1,S1)')
@@ -320,7 +320,7 @@ def optimum_threshold(K):
             r_ = toreal(p.value)
             K.prove(f'equal_sigma.defined[{sig}]', p.pc, z3.And(*[c for (_, c, _, _) in p.ex.side]) if p.ex.side else z3.BoolVal(True), replay=rep_eq,
                     words='no division by zero / undefined operation for S0 = S1')
-            K.prove(f'equal_sigma.value[{sig}]', p.pc, 2 * (r_ - mu0) * (mu1 - mu0) - (mu1 - mu0) * (mu1 - mu0) == 2 * S * UF['ln'](z3.RealVal(Mv - 1)) if Mv > 2 else r_ == (mu0 + mu1) / 2, replay=rep_eq,
+            K.prove(f'equal_sigma.value[{sig}]', p.pc, 2 * (r_ - mu0) * (mu1 - mu0) - (mu1 - mu0) * (mu1 - mu0) == 2 * S * uf('ln', z3.RealVal(Mv - 1)) if Mv > 2 else r_ == (mu0 + mu1) / 2, replay=rep_eq,
                     words='for S0 = S1 the solution of the likelihood equation: midpoint for OOK, midpoint + S ln(M-1)/(mu1-mu0) for PPM')
 
 
